@@ -1,6 +1,11 @@
 #!/bin/bash
 # Builds the verification harness offline from files on disk.
-set -e
+# Everything here is a cache warm-up except the first step: every check rebuilds what it needs.
 export CARGO_NET_OFFLINE=true
-cd /verif/harness
-cargo build --release -p vcheck
+cd /verif/harness || exit 1
+cargo build --release -p vcheck || exit 1
+# optional accelerators (a failure here is reported by the corresponding check, not by setup)
+/verif/tools/build_features.sh || echo "setup: feature builds failed (C16 will report)"
+( cd /verif/harness/fuzzhost && cargo +nightly fuzz build session --target-dir /verif/harness/target/fuzz >/dev/null 2>&1 ) || echo "setup: fuzz build unavailable (C03 degrades to its proptest part)"
+/verif/harness/target/release/vcheck --warm || true
+exit 0
